@@ -1,5 +1,7 @@
 package main
 
+import "fmt"
+
 // Generators for C05, C07, C08, C13 and C16 on Map / MapOf.
 
 var mapKinds = []ContainerKind{CMap, CMapOfInt}
@@ -377,7 +379,16 @@ func init() {
 		return finish(genC08Maps(lvlOf(tier)), "C08", OCount, false)
 	}
 	scenarioGens["C13maps"] = func(tier string) []*Scenario {
-		return finish(genC13Maps(lvlOf(tier)), "C13", OTerm, false)
+		out := finish(genC13Maps(lvlOf(tier)), "C13", OTerm, false)
+		// very long sequential histories (300000 keys, 131072 root buckets): every call returns
+		for kind := 0; kind < 2; kind++ {
+			name := fmt.Sprintf("C13/resize-histories/%s/huge-table/termination", bulkKinds[kind])
+			sp := bulkSpec(name, kind, 0, 1, 300000, 1, 0)
+			inner := sp.New
+			sp.New = func() SeqInst { bi := inner().(*bulkInst); bi.termOnly = true; return bi }
+			out = append(out, &Scenario{Name: name, Prop: "C13", Seq: sp})
+		}
+		return out
 	}
 	scenarioGens["C16maps"] = func(tier string) []*Scenario {
 		return finish(genC16Maps(lvlOf(tier)), "C16", OMon|OLin, false)
